@@ -25,12 +25,46 @@ const int kCodes = 1200;      // -200 .. 999
 const int kPatterns = 8;      // primal x dual x objective value
 const int kModes = 2;         // -AMPL / wantsol=1
 
-uint64_t enumerated(const std::string&) { return (uint64_t)kCodes * kPatterns * kModes + 4; }
+const int kAbortCodes = 1000; // 0 .. 999 reported through StdBackend::Abort(code, msg)
+const int kAbortSites = 2;    // from Solve() / from ReportResults()
+const int kChkFail = 8;       // sol:chk:fail: documented result 150 when the solution check fails
+
+uint64_t enumerated(const std::string&) {
+  return (uint64_t)kCodes * kPatterns * kModes + 4 + (uint64_t)kAbortCodes * kAbortSites * kModes + kChkFail;
+}
 
 sim::Json generate(const std::string& tier, uint64_t seed, uint64_t index) {
   (void)tier; (void)seed;
   uint64_t n = (uint64_t)kCodes * kPatterns * kModes;
-  if (index >= n + 4) return sim::Json();   // finite space, enumerated completely
+  const uint64_t nab = (uint64_t)kAbortCodes * kAbortSites * kModes;
+  if (index >= n + 4 + nab + kChkFail) return sim::Json();   // finite space, enumerated completely
+  if (index >= n + 4 + nab) {               // sol:chk:fail -> solve result 150 (documented with the option and in -!)
+    uint64_t k = index - (n + 4 + nab);
+    bool mip = k & 1; int mode = (k >> 1) & 1; bool violating = (k >> 2) & 1;
+    sim::Json sc = base_scenario(mip ? tiny_mip_nl() : tiny_lp_nl(), mode == 0);
+    if (mode == 1) sc.ref("argv").push("wantsol=1");
+    sc.ref("argv").push(k & 1 ? "sol:chk:fail" : "chk:fail");
+    sim::Json& s = sc.ref("script");
+    s.set("status", 0); s.set("status_msg", "status-msg-for-code");
+    s.set("primal", violating ? "full" : "ones"); s.set("dual", "none"); s.set("objvals", 0); s.set("solve_iters", 1);
+    sc.set("chkfail", true); sc.set("violating", violating); sc.set("mode", mode); sc.set("code", violating ? 150 : 0);
+    return sc;
+  }
+  if (index >= n + 4) {                     // codes reported through Abort(code, msg)
+    uint64_t k = index - (n + 4);
+    int c = (int)(k % kAbortCodes); k /= kAbortCodes;
+    int site = (int)(k % kAbortSites); k /= kAbortSites;
+    int mode = (int)k;
+    sim::Json sc = base_scenario((c & 1) ? tiny_mip_nl() : tiny_lp_nl(), mode == 0);
+    if (mode == 1) sc.ref("argv").push("wantsol=1");
+    sim::Json& s = sc.ref("script");
+    s.set("status", 0); s.set("solve_iters", 1);
+    sim::Json t = sim::Json::object();
+    t.set("where", site == 0 ? "Solve" : "ReportResults"); t.set("kind", "abort"); t.set("code", c);
+    s.set("throw", t);
+    sc.set("abort", true); sc.set("code", c); sc.set("mode", mode); sc.set("site", site);
+    return sc;
+  }
   if (index >= n) {                         // the -! table
     sim::Json sc = base_scenario(tiny_lp_nl(), false);
     sim::Json argv = sim::Json::array();
@@ -95,6 +129,32 @@ void judge(const sim::Json& sc, const RunRecord& rec, sim::RunResult& r) {
     }
     r.stats.set("table_runs", 1);
     r.trace_sig = sim::fnv1a(std::string("table"), r.trace_sig);
+  } else if (sc["abort"].as_bool() || sc["chkfail"].as_bool()) {
+    // the code reported through the error path (Abort / the solution checker's documented 150)
+    // must be the code of the .sol file; the message must carry the reported text
+    int c = (int)sc["code"].as_int();
+    bool ab = sc["abort"].as_bool();
+    std::string rk = range_key(c) + (ab ? "/abort" : "/chkfail");
+    auto it = rec.files_after.find("stub.sol");
+    if (it == rec.files_after.end()) flag("NO_SOL", rk, "no stub.sol written; stderr: " + rec.err.substr(0, 500));
+    else {
+      oracle::SolFile sf = oracle::parse_sol(it->second);
+      if (!sf.ok) flag("MALFORMED_SOL", rk, sf.error);
+      else if (ab) {
+        // code 1 == EXIT_FAILURE is what mp::Error carries when no code was given: it cannot be told apart and is
+        // reported as a failure (500); every other code is reported unchanged
+        int want = c == 1 ? 500 : c;
+        if (sf.code != want) flag("CODE_CHANGED", rk, "backend called Abort(" + std::to_string(c) + ", ...), .sol says " + std::to_string(sf.code));
+        if (sf.message_text().find("simulated solver failure") == std::string::npos) flag("STATUS_MSG_LOST", rk, "solve message lacks the text given to Abort(): " + sf.message_text().substr(0, 200));
+      } else {
+        if (sf.code != c) flag("CODE_CHANGED", rk, std::string("sol:chk:fail with a ") + (c ? "violating" : "feasible") + " solution: expected solve result " + std::to_string(c) + ", .sol says " + std::to_string(sf.code) + "; message: " + sf.message_text().substr(0, 300));
+      }
+    }
+    r.stats.set(ab ? "abort_runs" : "chkfail_runs", 1);
+    std::string cls = range_key(c); size_t at = cls.find('@'); if (at != std::string::npos) cls.resize(at);
+    r.stats.set("class." + cls, 1);
+    long k = ((long)c * 16 + 9 + (ab ? sc["site"].as_int() : 5)) * 2 + sc["mode"].as_int();
+    r.trace_sig = sim::fnv1a(&k, sizeof k, r.trace_sig);
   } else {
     int c = (int)sc["code"].as_int();
     int pat = (int)sc["pattern"].as_int();
